@@ -108,6 +108,11 @@ func (g *Gen) baseImage(maxGroups int, spare int) (*Op, map[uint32][]uint32) {
 			if r.Chance(1, 6) {
 				di.Opts = append(di.Opts, DIOpt{Kind: "link", N: uint32(1 + r.Intn(3))})
 			}
+			if len(dis) > 0 && r.Chance(1, 5) {
+				// byte-identical content to an earlier object (digest collisions by equality)
+				di.Data = dis[r.Intn(len(dis))].Data
+				g.count("base:duplicate-content")
+			}
 			dis = append(dis, di)
 			groups[uint32(gi)] = append(groups[uint32(gi)], id)
 			id++
@@ -697,7 +702,20 @@ func fillPatch(g *Gen, op *Op, b []byte) {
 		g.count("tamper:table-bit")
 	case mode < 7: // data bit (objects and signatures)
 		if len(b) > tabEnd {
-			op.Sites = []PatchSite{flip(tabEnd + r.Intn(len(b)-tabEnd))}
+			off := tabEnd + r.Intn(len(b)-tabEnd)
+			if r.Chance(2, 3) {
+				// aim inside the data of a used non-signature object (the last bytes of a copy)
+				slot := r.Intn(total)
+				o := 4096 + 585*slot
+				if o+33 <= len(b) && b[o+4] != 0 && !(b[o] == 0x05) {
+					doff := int(int64(b[o+17]) | int64(b[o+18])<<8 | int64(b[o+19])<<16 | int64(b[o+20])<<24)
+					dsz := int(int64(b[o+25]) | int64(b[o+26])<<8 | int64(b[o+27])<<16)
+					if dsz > 0 && doff+dsz <= len(b) {
+						off = doff + r.Intn(dsz)
+					}
+				}
+			}
+			op.Sites = []PatchSite{flip(off)}
 		} else {
 			op.Sites = []PatchSite{flip(r.Intn(128))}
 		}
@@ -725,6 +743,29 @@ func fillPatch(g *Gen, op *Op, b []byte) {
 		}
 		op.Sites = []PatchSite{{Off: base + field.off, B: val}}
 		g.count("tamper:field-rewrite")
+	case mode == 9 && r.Chance(1, 2): // set the group flag nibble of a link, keeping its low bits
+		slot := r.Intn(total)
+		for k := 0; k < total; k++ { // prefer a slot that has a link
+			o := 4096 + 585*((slot+k)%total)
+			if o+17 <= len(b) && (b[o+13] != 0 || b[o+14] != 0) {
+				slot = (slot + k) % total
+				break
+			}
+		}
+		o := 4096 + 585*slot + 16
+		op.Sites = []PatchSite{{Off: int64(o), B: []byte{b[o] | 0xf0}}}
+		g.count("tamper:link-group-flag")
+	case mode == 9 && r.Chance(1, 2): // zero the fingerprint of a signature descriptor
+		slot := r.Intn(total)
+		for k := 0; k < total; k++ {
+			o := 4096 + 585*((slot+k)%total)
+			if o+4 <= len(b) && b[o] == 0x05 && b[o+1] == 0x40 {
+				slot = (slot + k) % total
+				break
+			}
+		}
+		op.Sites = []PatchSite{{Off: int64(4096 + 585*slot + 201 + 4), B: make([]byte, 20)}}
+		g.count("tamper:zero-fingerprint")
 	default: // swap two descriptors
 		a, c := r.Intn(total), r.Intn(total)
 		da := append([]byte{}, b[4096+585*a:4096+585*a+585]...)
@@ -945,14 +986,24 @@ func scenC16(g *Gen, dir string) ([]*Op, func(e *Env, i int, op *Op, obs []strin
 				}
 			}
 		}
-		if r.Chance(2, 3) { // group-linked legacy signature over the concatenation
-			ops = append(ops, &Op{Kind: "add", T: TOpt{Kind: "det"}, DI: sigObjectDI(legacyBlob(ent, append(append([]byte{}, objData[1]...), objData[2]...), ht), 1, 0, htN, fp, 0)})
-			legacyKinds["group"] = true
-		}
-		if r.Chance(1, 2) { // mixed with a current-format signature
-			s := g.signKeys()
-			ops = append(ops, &Op{Kind: "sign", S: s})
-			legacyKinds["current"] = true
+		nl := pick(r, []int{0, 1, 1, 2, 3}) // group-linked legacy signatures over the concatenation
+		nc := pick(r, []int{0, 0, 1, 2, 3}) // mixed with current-format signatures, in any order
+		for nl+nc > 0 {
+			if nl > 0 && (nc == 0 || r.Chance(1, 2)) {
+				lfp := fp
+				if r.Chance(1, 6) {
+					lfp = nil // a signature descriptor that names nobody
+				}
+				ops = append(ops, &Op{Kind: "add", T: TOpt{Kind: "det"}, DI: sigObjectDI(legacyBlob(ent, append(append([]byte{}, objData[1]...), objData[2]...), ht), 1, 0, htN, lfp, 0)})
+				legacyKinds["group"] = true
+				nl--
+			} else {
+				s := g.signKeys()
+				s.Groups = []uint32{1}
+				ops = append(ops, &Op{Kind: "sign", S: s})
+				legacyKinds["current"] = true
+				nc--
+			}
 		}
 		g.count("base:generated")
 	}
@@ -1011,13 +1062,13 @@ func scenC16(g *Gen, dir string) ([]*Op, func(e *Env, i int, op *Op, obs []strin
 		// legacy soundness: the content of the covered objects hashes to the digest in the
 		// clear-signed plaintext of the signature that was accepted (made by a trusted key)
 		if m.Legacy || m.LegacyAll {
-			plains := map[uint32][]byte{}
+			plains := map[uint32][][]byte{} // tampering can make signature IDs collide
 			for _, l := range e.factLines() {
 				if strings.HasPrefix(l, "sf ") {
 					var id uint32
 					fmt.Sscan(fieldOf(l, "id"), &id)
 					p, _ := hex.DecodeString(strings.ReplaceAll(fieldOf(l, "plain"), "-", ""))
-					plains[id] = p
+					plains[id] = append(plains[id], p)
 				}
 			}
 			for _, l := range obs[1:] {
@@ -1039,20 +1090,24 @@ func scenC16(g *Gen, dir string) ([]*Op, func(e *Env, i int, op *Op, obs []strin
 						return false
 					})
 				}
-				want := strings.TrimSuffix(strings.TrimPrefix(string(plains[sid]), "SIFHASH:\n"), "\n")
-				var got string
-				switch len(want) {
-				case 96:
-					x := sha512.Sum384(cat)
-					got = hex.EncodeToString(x[:])
-				case 128:
-					x := sha512.Sum512(cat)
-					got = hex.EncodeToString(x[:])
-				default:
-					x := sha256.Sum256(cat)
-					got = hex.EncodeToString(x[:])
+				matched := false
+				for _, pl := range plains[sid] {
+					want := strings.TrimSuffix(strings.TrimPrefix(string(pl), "SIFHASH:\n"), "\n")
+					var got string
+					switch len(want) {
+					case 96:
+						x := sha512.Sum384(cat)
+						got = hex.EncodeToString(x[:])
+					case 128:
+						x := sha512.Sum512(cat)
+						got = hex.EncodeToString(x[:])
+					default:
+						x := sha256.Sum256(cat)
+						got = hex.EncodeToString(x[:])
+					}
+					matched = matched || strings.EqualFold(got, want)
 				}
-				if !strings.EqualFold(got, want) {
+				if !matched {
 					return &Violation{Prop: "C16", Key: "C16:legacy-content", What: fmt.Sprintf("legacy verification by signature %d succeeded over objects %v whose content does not hash to the signed digest", sid, ids), Op: i}
 				}
 			}
@@ -1082,6 +1137,18 @@ func scenC17(g *Gen, dir string) ([]*Op, func(e *Env, i int, op *Op, obs []strin
 			ops = append(ops, &Op{Kind: "sign", S: SOpts{PGP: -1, DSSE: []int{100 + r.Intn(len(u.DSSE))}, Groups: []uint32{gid}, T: TOpt{Kind: "det"}}})
 		}
 	}
+	// sometimes a signature descriptor names another entity than the one that signed
+	forged := false
+	if r.Chance(1, 3) {
+		gid := pick(r, gs)
+		ent := r.Intn(len(u.PGP))
+		other := (ent + 1 + r.Intn(len(u.PGP)-1)) % len(u.PGP)
+		// sign, then re-add the signature bytes under a descriptor naming `other`
+		ops = append(ops, &Op{Kind: "resign", S: SOpts{PGP: ent, Groups: []uint32{gid}, T: TOpt{Kind: "det"}, NoSalt: true}, FP: u.PGP[other].PrimaryKey.Fingerprint})
+		signersOf[gid] = append(signersOf[gid], other)
+		forged = true
+		g.count("variant:descriptor-names-other-key")
+	}
 	ops = append(ops, factsOp(), obsOp())
 	sel := VOpts{NoVS: true, NoKR: true}
 	switch r.Intn(4) {
@@ -1101,14 +1168,47 @@ func scenC17(g *Gen, dir string) ([]*Op, func(e *Env, i int, op *Op, obs []strin
 		}
 	}
 	g.count(fmt.Sprintf("select:g%d-o%d", len(sel.Groups), len(sel.Objects)))
+	// verification of the same tasks with every key trusted: when it succeeds, every listed PGP
+	// fingerprint must belong to a key that really produced a valid signature there
+	allKeys := []int{}
+	for k := range u.PGP {
+		allKeys = append(allKeys, k)
+	}
+	for k := range u.DSSE {
+		allKeys = append(allKeys, 100+k)
+	}
+	vsel := trustFor(allKeys)
+	vsel.Groups, vsel.Objects = sel.Groups, sel.Objects
+	verI := len(ops)
+	ops = append(ops, &Op{Kind: "verify", V: vsel})
+	verOK := false
+	_ = forged
 	qa := len(ops)
 	ops = append(ops, &Op{Kind: "signedby", V: sel, Any: true})
 	qb := len(ops)
 	ops = append(ops, &Op{Kind: "signedby", V: sel, Any: false}, obsOp())
 	// expected listing: union / intersection over the selected tasks of the recorded fingerprints
 	check := func(e *Env, i int, op *Op, obs []string) *Violation {
+		if i == verI {
+			verOK = len(obs) > 0 && strings.HasPrefix(obs[0], "v ok")
+			return nil
+		}
 		if (i != qa && i != qb) || len(obs) == 0 || !strings.HasPrefix(obs[0], "fp ok") {
 			return nil
+		}
+		if verOK && i == qa {
+			// real signers per the crypto oracle
+			real := map[string]bool{}
+			for _, l := range e.factLines() {
+				if strings.HasPrefix(l, "sf ") && fieldOf(l, "signer") != "-" {
+					real[hex.EncodeToString(u.PGP[atoi(fieldOf(l, "signer"))].PrimaryKey.Fingerprint)] = true
+				}
+			}
+			for _, fp := range strings.Split(strings.TrimPrefix(obs[0], "fp ok "), ",") {
+				if fp != "" && fp != "fp ok" && !real[fp] {
+					return &Violation{Prop: "C17", Key: "C17:listed-not-validated", What: "verification of the selected tasks succeeded, yet the listing names " + fp + ", a key that produced no valid signature in the image", Op: i}
+				}
+			}
 		}
 		var tasks []uint32 // one group per task
 		switch {
